@@ -136,6 +136,7 @@ fn main() {
             trees_for(&mut rep, Mode::C02, tier, &["T-struct", "T-mixed", "T-num", "T-str", "T-tok"], 0.8, strict, false);
             x_all(&mut rep, Mode::C02, tier);
             spill_family(&mut rep, Mode::C02);
+            duplicate_key_family(&mut rep, Mode::C02, tier);
             t_corpus(&mut rep, Mode::C02, Tier::Quick);
             rep.rule = "every accepted node of the trees and every member of the complete families (65 536 \\uXXXX in both hex cases, 1 048 576 surrogate pairs, 1 112 064 raw scalars, 128 backslash+ASCII) is parsed through parse_str, parse_slice and the observed iterator; the value, observed through the public accessors, must equal R-dec's abstract value; every key lookup on every object must equal a linear scan; non-trivial = distinct accepted inputs".into();
             rep.finish()
@@ -144,6 +145,7 @@ fn main() {
             let mut rep = Report::new(&args, "model_checking", "E-TREE leaves vs. R-dec's expected code map");
             trees_for(&mut rep, Mode::C05, tier, &["T-struct", "T-mixed", "T-str", "T-tok"], 1.2, strict, false);
             spill_family(&mut rep, Mode::C05);
+            duplicate_key_family(&mut rep, Mode::C05, tier);
             whitespace_family(&mut rep, Mode::C05);
             t_corpus(&mut rep, Mode::C05, Tier::Quick);
             rep.rule = "every accepted node: the returned code map must equal R-dec's pre-order list of (start, end, volume) exactly, through parse_str, parse_slice and the observed iterator; root volume = length, volumes >= 1, one entry per traversal fragment; non-trivial = distinct accepted inputs".into();
